@@ -213,9 +213,10 @@ func tryValidate(signer etypes.Signer, tx *appTx) error {
 		return nil
 	}
 
-	// when this tx is not a evm-like tx
+	// empty transaction bytes decode to no transaction at all: nothing can be executed
 	if tx.tx == nil {
-		atomic.StoreInt32(&tx.status, appTxStatusChecked)
+		tx.err = errEmptyTransaction
+		atomic.StoreInt32(&tx.status, appTxStatusFailed)
 		return nil
 	}
 
